@@ -327,6 +327,11 @@ class _AsyncFileWriter(_UnicodeWriter[AnyStr]):
             data = await self._queue.get()
 
             if data is None:
+                # Close the file before reporting the queue as drained,
+                # so waiting for the process also waits for the close
+                if self._needs_close:
+                    await self._file.close()
+
                 self._queue.task_done()
                 break
 
@@ -336,9 +341,6 @@ class _AsyncFileWriter(_UnicodeWriter[AnyStr]):
             if self._paused and self._queue.qsize() < _QUEUE_LOW_WATER:
                 self._process.resume_feeding(self._datatype)
                 self._paused = False
-
-        if self._needs_close:
-            await self._file.close()
 
     def write(self, data: AnyStr) -> None:
         """Write data to the file"""
